@@ -28,24 +28,40 @@ func init() {
 // transfer attributes after some pre-actions: source coin A uusdc, destination coin D uusdc with 0 < D <= A, and the orbiter
 // account holding exactly D (the forwarder's precondition).
 func afterActions(w *World) (*core.TransferAttributes, math.Int, math.Int) {
+	return afterActionsIn(w, nativeDenom)
+}
+
+func afterActionsIn(w *World, denom string) (*core.TransferAttributes, math.Int, math.Int) {
 	A, D := verif.BigInt("A"), verif.BigInt("D")
 	verif.Assume(D.IsPositive() && D.LTE(A))
-	ta, err := core.NewTransferAttributes(core.PROTOCOL_IBC, "channel-0", nativeDenom, A)
+	ta, err := core.NewTransferAttributes(core.PROTOCOL_IBC, "channel-0", denom, A)
 	must(err)
 	ta.SetDestinationAmount(D)
-	w.L.Set(core.ModuleAddress, nativeDenom, D)
+	w.L.Set(core.ModuleAddress, denom, D)
 	return ta, A, D
+}
+
+// transferDenom: the transferred coin is uusdc or another Noble-native denomination; in the latter case the orbiter
+// account may ALSO hold uusdc (only the incoming denomination is swept), so that a request built with a constant
+// denomination instead of the transfer's own would find funds.
+func transferDenom(w *World) string {
+	denom := []string{nativeDenom, "ueure"}[verif.Choose("transfer-denom", 2)]
+	return denom
 }
 
 func H_C05_cctp() {
 	w := NewWorld(false)
-	ta, _, D := afterActions(w)
+	denom := transferDenom(w)
+	ta, _, D := afterActionsIn(w, denom)
+	if denom != nativeDenom && verif.Bool("orbiter-also-holds-uusdc") {
+		w.L.Set(core.ModuleAddress, nativeDenom, D)
+	}
 	n := verif.Bound("bytes")
 	attr := &fwdtypes.CCTPAttributes{DestinationDomain: verif.Uint32("domain"), MintRecipient: verif.Bytes("recipient", n), DestinationCaller: verif.Bytes("caller", n)}
 	f := &core.Forwarding{ProtocolId: core.PROTOCOL_CCTP, PassthroughPayload: verif.Bytes("passthrough", 2)}
 	must(f.SetAttributes(attr))
 	err := w.K.Forwarder().HandlePacket(w.Ctx, &types.ForwardingPacket{TransferAttributes: ta, Forwarding: f})
-	valid := attr.DestinationDomain != fwdtypes.CCTPNobleDomain && len(attr.MintRecipient) > 0
+	valid := attr.DestinationDomain != fwdtypes.CCTPNobleDomain && len(attr.MintRecipient) > 0 && denom == nativeDenom // (the CCTP model burns uusdc only)
 	if err != nil {
 		verif.Cover("refused")
 		verif.Assert(!valid, "valid-cctp-forwarding-is-executed")
@@ -63,7 +79,7 @@ func H_C05_cctp() {
 	verif.Assert(string(r.recipient) == string(attr.MintRecipient), "cctp-mint-recipient")
 	verif.Assert(r.withCaller == (len(attr.DestinationCaller) > 0), "cctp-with-caller-iff-caller-given")
 	verif.Assert(string(r.caller) == string(attr.DestinationCaller), "cctp-destination-caller")
-	verif.Assert(r.burnToken == nativeDenom, "cctp-burn-token-is-the-post-action-denom")
+	verif.Assert(r.burnToken == denom, "cctp-burn-token-is-the-post-action-denom")
 	verif.Assert(r.amount.Equal(D), "cctp-amount-is-the-post-action-amount")
 	verif.Assert(r.from == core.ModuleAddress.String(), "cctp-sender-is-the-orbiter-account")
 }
@@ -157,7 +173,11 @@ func H_C05_hyperlane() {
 
 func H_C05_internal() {
 	w := NewWorld(false)
-	ta, _, D := afterActions(w)
+	denom := transferDenom(w)
+	ta, _, D := afterActionsIn(w, denom)
+	if denom != nativeDenom && verif.Bool("orbiter-also-holds-uusdc") {
+		w.L.Set(core.ModuleAddress, nativeDenom, D)
+	}
 	rk := verif.Choose("recipient", 4)
 	rcpt := []string{user1.String(), feeR1.String(), "", "noble1nope"}[rk]
 	f := &core.Forwarding{ProtocolId: core.PROTOCOL_INTERNAL}
@@ -178,7 +198,7 @@ func H_C05_internal() {
 	r := w.Int.reqs[0]
 	verif.Assert(r.FromAddress == core.ModuleAddress.String(), "internal-sender-is-the-orbiter-account")
 	verif.Assert(r.ToAddress == rcpt, "internal-recipient")
-	verif.Assert(len(r.Amount) == 1 && r.Amount[0].Denom == nativeDenom && r.Amount[0].Amount.Equal(D), "internal-coin-is-the-post-action-coin")
+	verif.Assert(len(r.Amount) == 1 && r.Amount[0].Denom == denom && r.Amount[0].Amount.Equal(D), "internal-coin-is-the-post-action-coin")
 }
 
 // every (protocol identifier, attribute type) combination, incl. numbers outside the enum and missing attributes
